@@ -26,6 +26,7 @@ func checkC06(c *Ctx) {
 	c.Decides("ordering and fail-closed shape of approval, forwarding and answering in the principal and target state machines")
 	c.NotDecided("what a user-supplied approval callback decides; the ci==nil => insecureAcceptAll default of StartPrincipalInstance (an API choice the statement does not mention; informational)")
 
+	c06R6(c)
 	fn := P.Func("authgrants", "(*principalInstance).doIntentRequestChecks")
 	fCheck := P.Field("authgrants", "principalInstance", "checkIntent")
 	fSetup := P.Field("authgrants", "principalInstance", "setUpTargetConn")
@@ -801,4 +802,77 @@ func blockReaches(from, to *ssa.BasicBlock) bool {
 		return false
 	}
 	return dfs(from)
+}
+
+// c06R6: a recovered panic is not an approval. The principal forwards an intent when the approval
+// callback returned a nil error. A deferred recover() in a function on that decision path which lets the
+// function return its zero results turns "the callback crashed on delegate-chosen data" into "approved".
+// Rule: in the packages where authorization decisions are made, every function with an error result that
+// defers a recover() must, in the recovering branch, store a non-nil error into its (named) error result.
+// There is no such construct on the pinned tree; the rule's mutants are its positive control.
+func c06R6(c *Ctx) {
+	P := c.P
+	const rule = "C06.R6"
+	c.Rule(rule, "a recovered panic is not an approval: every function with an error result in authgrants / hopserver / hopclient that defers a recover() stores a non-nil error into its named error result in the recovering branch (otherwise a callback that panics on delegate-chosen data counts as having accepted) (def-use over deferred closures)")
+	n := 0
+	for _, f := range P.ModuleFuncs("authgrants", "hopserver", "hopclient") {
+		if f.Blocks == nil {
+			continue
+		}
+		eachInstr(f, func(ins ssa.Instruction) {
+			call, ok := ins.(*ssa.Call)
+			if !ok {
+				return
+			}
+			b, ok := call.Call.Value.(*ssa.Builtin)
+			if !ok || b.Name() != "recover" {
+				return
+			}
+			// f is the deferred closure (or a function called from it); its parent is the protected function
+			parent := f.Parent()
+			if parent == nil {
+				return
+			}
+			sig := parent.Signature
+			if sig.Results().Len() == 0 || !isErrorType(sig.Results().At(sig.Results().Len()-1).Type()) {
+				return
+			}
+			n++
+			cons := fmt.Sprintf("%s#recover%d", FuncName(parent), n)
+			// a store of a non-nil error through a free variable, in a block reached only when recover() != nil
+			okv := false
+			eachInstr(f, func(gi ssa.Instruction) {
+				st, ok := gi.(*ssa.Store)
+				if !ok || !isErrorType(st.Val.Type()) || isNilConst(st.Val) {
+					return
+				}
+				if _, isFree := st.Addr.(*ssa.FreeVar); !isFree {
+					return
+				}
+				// dominated by the true edge of recover() != nil
+				for _, blk := range f.Blocks {
+					iff, ok := blk.Instrs[len(blk.Instrs)-1].(*ssa.If)
+					if !ok {
+						continue
+					}
+					key, pol := normCond(iff.Cond)
+					if key.op != token.EQL || key.y != nil || strip(key.x) != ssa.Value(call) {
+						continue
+					}
+					// key: recover() == nil holds == pol; the recovering successor is where it is false
+					rec := blk.Succs[0]
+					if pol {
+						rec = blk.Succs[1]
+					}
+					if len(rec.Preds) == 1 && rec.Dominates(st.Block()) {
+						okv = true
+					}
+				}
+			})
+			c.Check(okv, rule, cons, P.InstrPos(call), "the recovering branch reports an error", "a deferred recover() lets the function return a nil error after a panic: a decision callback that crashes on data chosen by the other side is treated as having accepted")
+		})
+	}
+	if n == 0 {
+		c.OK(rule, "recover:none", "-", "no deferred recover() in an error-returning function of authgrants / hopserver / hopclient")
+	}
 }
